@@ -206,7 +206,9 @@ def bookkeeping_rule(repo: Repo, rep: Report, rid: str) -> None:
     g = CFG(rd.node)
     szs = [x for x in g.nodes if x.kind == "stmt" and isinstance(x.ast, ast.Assign) and norm(x.ast.targets[0]).startswith("sizes[")]
     bit_arm = [x for x in g.nodes if x.kind == "if" and norm(x.ast.test) == "field.bits"]
-    rep.check(len(szs) == 1 and bool(bit_arm) and any(isinstance(s, ast.Continue) for s in bit_arm[0].ast.body), rid, f"{rd.key}:sizes",
+    loops_rd = [x for x in g.nodes if x.kind == "for" and norm(x.ast.iter) == "cls.__fields__"]
+    bits_skip = len(szs) == 1 and bool(bit_arm) and bool(loops_rd) and szs[0].id not in g.reachable(bit_arm[0].id, first_edge="T", avoid={loops_rd[0].id})
+    rep.check(bits_skip, rid, f"{rd.key}:sizes",
               "interpreter records sizes only for byte-occupying fields", "interpreter size bookkeeping changed shape", rd.loc())
     # size recorded by templates: difference of two tell() around the read, or the static size of the field's type
     for t in tpls:
@@ -454,16 +456,21 @@ def unpack_defined_rule(repo: Repo, rep: Report, rid: str) -> None:
     names = [x.id for x in ast.walk(test) if isinstance(x, ast.Name) and x.id not in ("len", "set", "all", "any", "str")]
     var = next((a_.targets[0].id for a_ in ast.walk(st) if isinstance(a_, ast.Assign) and isinstance(a_.targets[0], ast.Name)
                 and isinstance(a_.value, (ast.Constant, ast.IfExp)) ), None) if isinstance(st, ast.If) else st.targets[0].id
-    if not names or var is None:
+    fmt_assign = next((a_ for a_ in fi.body if isinstance(a_, ast.Assign) and isinstance(a_.value, ast.Call) and call_name(a_.value) == "_optimize_struct_fmt"
+                       and isinstance(a_.targets[0], ast.Name)), None)
+    if not names or var is None or fmt_assign is None:
         raise AnalysisError("_generate_packed: omission test of the unpack line has no format variable")
-    fmtvar = names[0]
+    fmtvar = fmt_assign.targets[0].id
+    # the statements between the format and the omission decision (named sub-conditions) are folded along
+    i0, i1 = fi.body.index(fmt_assign), fi.body.index(st)
+    between = [x for x in fi.body[i0 + 1:i1] if isinstance(x, ast.Assign)]
     samples = {"x": True, "4x": True, "12x": True, "130x": True, "B": False, "Bx": False, "Hx": False, "xB": False, "Qx": False, "2Bx": False, "B3x": False,
                "4xI": False, "I4x": False, "2x2H": False}
     bad = None
     try:
         for fmt, pad_only in samples.items():
             env = {fmtvar: fmt}
-            Evaluator(env).run([st], env)
+            Evaluator(env).run([*between, st], env)
             omitted = env.get(var) == ""
             if omitted and not pad_only:
                 bad = (fmt, "the unpack line is omitted although the format unpacks a value")
